@@ -400,6 +400,8 @@ class CompiledSimulation(object):
         self._initialize_mems.restype = None
         self._mem_lookup = self._dll.lookup
         self._mem_lookup.restype = ctypes.POINTER(ctypes.c_uint64)
+        # without argtypes, ctypes would pass the uint64_t key as a (truncated) C int
+        self._mem_lookup.argtypes = [ctypes.c_void_p, ctypes.c_uint64]
 
     def _limbs(self, w):
         """ Number of 64-bit words needed to store value of wire. """
